@@ -44,6 +44,18 @@ TARGETS = [
     ("sktime/transformations/series/boxcox.py", "BoxCoxTransformer", "inverse_transform", False),
     ("sktime/transformations/series/boxcox.py", "LogTransformer", "transform", False),
     ("sktime/transformations/series/boxcox.py", "LogTransformer", "inverse_transform", False),
+    ("sktime/transformations/series/detrend/_deseasonalize.py", "ConditionalDeseasonalizer", "fit",
+     True),
+    ("sktime/transformations/series/adapt.py", "TabularToSeriesAdaptor", "fit", True),
+    ("sktime/transformations/series/adapt.py", "TabularToSeriesAdaptor", "transform", False),
+    ("sktime/transformations/series/adapt.py", "TabularToSeriesAdaptor", "inverse_transform", False),
+    ("sktime/transformations/series/compose.py", "OptionalPassthrough", "fit", True),
+    ("sktime/transformations/series/compose.py", "OptionalPassthrough", "transform", False),
+    ("sktime/transformations/series/compose.py", "OptionalPassthrough", "inverse_transform", False),
+    ("sktime/transformations/series/acf.py", "AutoCorrelationTransformer", "transform", False),
+    ("sktime/transformations/series/acf.py", "PartialAutoCorrelationTransformer", "transform", False),
+    ("sktime/transformations/series/cos.py", "CosineTransformer", "transform", False),
+    ("sktime/transformations/series/summarize.py", "MeanTransformer", "transform", False),
     ("sktime/transformations/base.py", "BaseTransformer", "fit", True),
 ]
 
@@ -82,9 +94,12 @@ EXT_PURE = {
     "clone", "check_random_state", "check_sp", "seasonal_decompose", "boxcox", "inv_boxcox",
     "_get_duration", "_get_freq",
     "np.isnan", "np.arange", "np.nanmedian", "np.abs", "np.log", "np.exp", "np.zeros", "np.ones",
-    "np.nanmean", "np.median", "np.mean", "np.sqrt", "np.where", "np.full",
-    "warnings.warn",
+    "np.nanmean", "np.median", "np.mean", "np.sqrt", "np.where", "np.full", "np.cos",
+    "warnings.warn", "acf", "pacf",
 }
+# attributes of self that hold a user-supplied callable (called like a function: no write through
+# its arguments is assumed)
+SELF_CALLABLE_ATTRS = {"seasonality_test_"}
 # inherited methods of self that are not in the scanned module
 SELF_PURE_INHERITED = {"check_is_fitted"}
 MAX_INLINE_DEPTH = 5
@@ -386,7 +401,7 @@ class MethodTranslator:
             if callee is not None:
                 return self.inline(callee, c, fr, True)
             pre, _ = self.ev_args(c, fr)
-            if m in SELF_PURE_INHERITED:
+            if m in SELF_PURE_INHERITED or m in SELF_CALLABLE_ATTRS:
                 return pre, F
             self.bad(c, "method of self that is neither in the module nor in SELF_PURE_INHERITED")
         # ---- method of an object
